@@ -885,22 +885,107 @@ Proof.
     constructor; [constructor|constructor].
 Qed.
 
+(* ------------------------------------------------------------------ *)
+(* trailing_frags: split a word into (up to its last element with content, trailing markers) *)
+
+Lemma tfr_cons e w :
+  trailing_frags (e :: w) =
+  match fst (trailing_frags w) with
+  | [] => if elem_has_content e then ([e], snd (trailing_frags w))
+          else ([], e :: snd (trailing_frags w))
+  | _ :: _ => (e :: fst (trailing_frags w), snd (trailing_frags w))
+  end.
+Proof. cbn [trailing_frags]. destruct (trailing_frags w) as [p t]. reflexivity. Qed.
+
+Lemma tfr_app w : w = fst (trailing_frags w) ++ snd (trailing_frags w).
+Proof.
+  induction w as [|e w IH]; [reflexivity|]. rewrite tfr_cons.
+  destruct (fst (trailing_frags w)) as [|e0 p] eqn:Ep.
+  - cbn [app] in IH. destruct (elem_has_content e); cbn [fst snd app]; congruence.
+  - cbn [fst snd]. rewrite <- app_comm_cons. congruence.
+Qed.
+
+Lemma tfr_snd_nocontent w : existsb elem_has_content (snd (trailing_frags w)) = false.
+Proof.
+  induction w as [|e w IH]; [reflexivity|]. rewrite tfr_cons.
+  destruct (fst (trailing_frags w)) as [|e0 p] eqn:Ep; [|exact IH].
+  destruct (elem_has_content e) eqn:Ee; cbn [fst snd]; [exact IH|].
+  cbn [existsb]. rewrite Ee, IH. reflexivity.
+Qed.
+
+Lemma tfr_snd_frag w e : In e (snd (trailing_frags w)) -> exists n, e = Frag n.
+Proof.
+  intros Hin. destruct e as [s t|n]; [|eauto]. exfalso.
+  assert (Hex : existsb elem_has_content (snd (trailing_frags w)) = true).
+  { apply existsb_exists. exists (Str s t). split; [exact Hin|reflexivity]. }
+  rewrite tfr_snd_nocontent in Hex. discriminate.
+Qed.
+
+Lemma tfr_snd_vw w : vw (snd (trailing_frags w)) = 0.
+Proof. apply no_content_vw, tfr_snd_nocontent. Qed.
+
+Lemma tfr_fst_vw w : vw (fst (trailing_frags w)) = vw w.
+Proof. rewrite (tfr_app w) at 2. rewrite vw_app, tfr_snd_vw. lia. Qed.
+
+(* a word without content is taken whole (the former behaviour) *)
+Lemma tfr_empty w : word_is_empty w = true -> trailing_frags w = ([], w).
+Proof.
+  unfold word_is_empty. induction w as [|e w IH]; [reflexivity|]. cbn [existsb].
+  intros H. rewrite tfr_cons.
+  destruct (elem_has_content e) eqn:Ee; [discriminate|]. cbn [orb] in H.
+  rewrite (IH H). reflexivity.
+Qed.
+
+(* the kept part is empty exactly when the word has no content ... *)
+Lemma tfr_fst_nil_iff w : fst (trailing_frags w) = [] <-> word_is_empty w = true.
+Proof.
+  split; [|intros H; rewrite (tfr_empty w H); reflexivity].
+  intros H. unfold word_is_empty. rewrite (tfr_app w), H. cbn [app].
+  rewrite tfr_snd_nocontent. reflexivity.
+Qed.
+
+Lemma tfr_fst_empty w : word_is_empty (fst (trailing_frags w)) = word_is_empty w.
+Proof.
+  unfold word_is_empty. rewrite (tfr_app w) at 2. rewrite existsb_app, tfr_snd_nocontent.
+  rewrite orb_false_r. reflexivity.
+Qed.
+
+(* ... and otherwise ends with an element with content *)
+Lemma tfr_fst_last w :
+  fst (trailing_frags w) = [] \/
+  exists p e, fst (trailing_frags w) = p ++ [e] /\ elem_has_content e = true.
+Proof.
+  induction w as [|e w IH]; [left; reflexivity|]. rewrite tfr_cons.
+  destruct (fst (trailing_frags w)) as [|e0 p] eqn:Ep.
+  - destruct (elem_has_content e) eqn:Ee; cbn [fst]; [right|left; reflexivity].
+    exists [], e. split; [reflexivity|exact Ee].
+  - right. cbn [fst]. destruct IH as [IH|(p' & e' & IH & He')]; [discriminate|].
+    exists (e :: p'), e'. rewrite IH. split; [reflexivity|exact He'].
+Qed.
+
+Lemma ttf_eq b :
+  take_trailing_fragments b =
+  (set_word b (fst (trailing_frags (wword b))) (wordlen b), snd (trailing_frags (wword b))).
+Proof. unfold take_trailing_fragments. destruct (trailing_frags (wword b)); reflexivity. Qed.
+
+Lemma ttf_empty b :
+  word_is_empty (wword b) = true ->
+  take_trailing_fragments b = (set_word b [] (wordlen b), wword b).
+Proof. intros H. rewrite ttf_eq, (tfr_empty _ H). reflexivity. Qed.
+
 Lemma take_trailing_fragments_Inv b :
   Inv b ->
   Inv (fst (take_trailing_fragments b)) /\ same_cfg b (fst (take_trailing_fragments b)) /\
   (forall e, In e (snd (take_trailing_fragments b)) -> exists n, e = Frag n).
 Proof.
   intros HI. pose proof HI as HI'. apply Inv_iff in HI'. destruct HI' as (HI0 & Hwl & Hehw).
-  unfold take_trailing_fragments. destruct (word_is_empty (wword b)) eqn:Ewe; cbn [fst snd].
-  - split; [|split; [unfold same_cfg; prj; auto|]].
-    + apply Inv_iff. prj. split; [apply Inv0_set_word, HI0|]. split; [|constructor].
-      rewrite Hwl. apply word_is_empty_vw, Ewe.
-    + intros e Hin. destruct e as [s t|n]; [|eauto]. exfalso.
-      unfold word_is_empty in Ewe.
-      assert (Hex : existsb elem_has_content (wword b) = true).
-      { apply existsb_exists. exists (Str s t). split; [exact Hin|reflexivity]. }
-      rewrite Hex in Ewe. discriminate.
-  - split; [exact HI|]. split; [apply same_cfg_refl|]. intros e [].
+  rewrite ttf_eq. cbn [fst snd].
+  split; [|split; [unfold same_cfg; prj; auto|]].
+  - apply Inv_iff. prj. split; [apply Inv0_set_word, HI0|]. split.
+    + rewrite tfr_fst_vw. exact Hwl.
+    + unfold elems_have_width in *. rewrite (tfr_app (wword b)) in Hehw.
+      apply Forall_app in Hehw. apply Hehw.
+  - intros e. apply tfr_snd_frag.
 Qed.
 
 (* ================================================================== *)
